@@ -526,6 +526,48 @@ pub fn run(ctx: &mut Ctx) {
             &mut jobs,
         );
     }
+    // ---- Henry's law constants: solutes are the components with zero mole fraction, wherever they stand among the solvents
+    {
+        let p = zoo::pcsaft_with_kij(&zoo::pcsaft_params(&[(&["methane", "butane", "hexane", "propane"], "gross2001")]), 0.02);
+        let (recs, bin) = p.records();
+        let (recs, bin) = (recs.to_vec(), bin.cloned());
+        // (x over the named components; zero = solute)
+        for (tag, x0) in [("1 solute, 2 solvents", vec![0.0, 0.35, 0.65]), ("2 solutes, 2 solvents", vec![0.0, 0.35, 0.65, 0.0]), ("1 solute, 3 solvents", vec![0.0, 0.3, 0.5, 0.2])] {
+            let n = x0.len();
+            for pm in perms(n) {
+                let (recs, bin, x0) = (recs.clone(), bin.clone(), x0.clone());
+                jobs.push((
+                    format!("henry|{tag}|perm={pm:?}"),
+                    Box::new(move |rec: &mut Rec| {
+                        let idx0: Vec<usize> = (0..n).collect();
+                        let mk = |idx: &[usize]| -> Arc<ResidualModel> {
+                            let r: Vec<_> = idx.iter().map(|&i| recs[i].clone()).collect();
+                            Arc::new(ResidualModel::PcSaft(PcSaft::new(Arc::new(PcSaftParameters::from_records(r, sub_matrix(&bin, idx)).unwrap()))))
+                        };
+                        let t = 320.0 * KELVIN;
+                        let base = State::henrys_law_constant(&mk(&idx0), t, &Array1::from_vec(x0.clone()));
+                        let xp: Vec<f64> = pm.iter().map(|&i| x0[i]).collect();
+                        let permuted = State::henrys_law_constant(&mk(&pm), t, &Array1::from_vec(xp));
+                        match (base, permuted) {
+                            (Ok(b), Ok(q)) => {
+                                // the result lists the solutes only, in the order in which they stand in the system
+                                let (b, q) = (b.to_reduced(), q.to_reduced());
+                                let solutes0: Vec<usize> = (0..n).filter(|&i| x0[i] == 0.0).collect();
+                                let solutes_p: Vec<usize> = pm.iter().cloned().filter(|&i| x0[i] == 0.0).collect();
+                                rec.require("henry_permutation", "length", b.len() == solutes0.len() && q.len() == solutes_p.len(), || format!("{} / {} constants for {} solutes", b.len(), q.len(), solutes0.len()));
+                                for (kq, &i) in solutes_p.iter().enumerate() {
+                                    let kb = solutes0.iter().position(|&j| j == i).unwrap();
+                                    rec.check("henry_permutation", &format!("component{i}"), ((q[kq] - b[kb]) / b[kb]).abs() / 1e-8, true, || format!("Henry constant of component {i}: {:e} in the original order, {:e} in the permuted system", b[kb], q[kq]));
+                                }
+                            }
+                            (Err(_), Err(_)) => rec.skip("Henry constant cannot be computed (conditional)"),
+                            _ => rec.require("henry_permutation", "found", false, || "Henry constant is found in one component order only".into()),
+                        }
+                    }),
+                ));
+            }
+        }
+    }
     // ---- gc-PC-SAFT (heterosegmented): relabelling through the order of substance names, subset
     for names in [vec!["ethanol", "propane", "1-butanol"], vec!["methyl propanoate", "hexane", "ethanol"]] {
         let n = names.len();
